@@ -61,6 +61,7 @@ func TwoStages(i0, i1, im uint64) *Prog {
 			{T: "w", Key: Cat(Lit("a"), Mod(3)), Val: Cat(Lit("v"), Num()), Ord: 1},
 			{If: Every(4, 3), T: "d", Key: Lit("a1"), Ord: 2},
 			{If: Every(5, 0), T: "w", Key: Lit("ab"), Val: ID(), Ord: 3},
+			{T: "w", Key: Lit("a0"), Val: Lit("early"), Ord: 0}, // called last, ordered first: the log is not in call order
 		}},
 		"s1": {Ops: []OpT{
 			{T: "w", Key: Lit("log"), Val: Cat(Get(0, "last", Lit("a0"), 0), Lit(";")), Ord: 1},
